@@ -9,7 +9,12 @@ package vsync
 import (
 	"fmt"
 	"sync"
+	"sync/atomic"
 )
+
+// GoID, when set by the harness, returns the id of the calling goroutine: the scheduler records which goroutine
+// runs the current task, so that a monitor can see a task blocked OUTSIDE the primitives modelled here.
+var GoID func() uint64
 
 // names of package sync that signatures of mocked interfaces may mention
 type (
@@ -120,6 +125,7 @@ type task struct {
 	pend   pending
 	done   bool
 	panicV any
+	gid    uint64
 }
 
 // Scheduler runs task bodies one at a time.
@@ -131,7 +137,11 @@ type Scheduler struct {
 	Step    int             // logical clock: number of scheduling decisions so far
 	Trace   []string
 	OnIdle  func(s *Scheduler) bool // called when no task is enabled; may open gates; returns true if it changed something
+	curGID  atomic.Uint64
 }
+
+// RunningGID returns the goroutine id of the task that is running (0 if unknown).
+func (s *Scheduler) RunningGID() uint64 { return s.curGID.Load() }
 
 var (
 	instMu sync.Mutex
@@ -153,12 +163,17 @@ func (d *Deadlock) Error() string { return "deadlock: " + d.Desc }
 // that owns Choose (the rapid property goroutine).
 func (s *Scheduler) Run(bodies []func()) (err error) {
 	s.yielded = make(chan struct{})
+	started := make(chan struct{}, len(bodies))
 	for i, body := range bodies {
 		t := &task{id: i, resume: make(chan struct{})}
 		t.pend = pending{kind: opStart}
 		s.tasks = append(s.tasks, t)
 		body := body
 		go func() {
+			if GoID != nil {
+				t.gid = GoID()
+			}
+			started <- struct{}{}
 			<-t.resume
 			defer func() {
 				if r := recover(); r != nil {
@@ -169,6 +184,9 @@ func (s *Scheduler) Run(bodies []func()) (err error) {
 			}()
 			body()
 		}()
+	}
+	for range bodies {
+		<-started
 	}
 	instMu.Lock()
 	inst = s
@@ -220,6 +238,7 @@ func (s *Scheduler) Run(bodies []func()) (err error) {
 		s.Step++
 		s.Trace = append(s.Trace, fmt.Sprintf("%d:%s", t.id, opNames[t.pend.kind]))
 		s.cur = t
+		s.curGID.Store(t.gid)
 		t.resume <- struct{}{}
 		<-s.yielded
 	}
